@@ -371,19 +371,22 @@ pub fn seam_reset() -> u8 {
 ///   with d_0 < d_1 < .. in Direction::ALL order; and for the symbolic (i,d):
 ///   (exists k: d_k == d && bit(mask_k, i)) == spec(i,d)
 pub fn seam_list_ok(v: &[Action], base: usize, rep: u8) -> bool {
+    // one Move(REP, d) per seam call, every call with a non-empty word, the directions pairwise distinct
+    // (no property fixes the ORDER of the directions, so none is demanded)
     let n = unsafe { SEAM_N };
     if n > 4 || v.len() != base + n {
         return false;
     }
     let mut ok = true;
-    let mut last: i8 = -1;
+    let mut seen: u8 = 0;
     let mut k = 0;
     while k < 4 {
         if k < n {
             match v[base + k] {
                 Action::Move(s, d) => {
-                    ok = ok && s.index() as u8 == rep && (dir_ord(d) as i8) > last && unsafe { SEAM_LOG[k] } != 0;
-                    last = dir_ord(d) as i8;
+                    let m = 1u8 << dir_ord(d);
+                    ok = ok && s.index() as u8 == rep && (seen & m) == 0 && unsafe { SEAM_LOG[k] } != 0;
+                    seen |= m;
                 }
                 _ => ok = false,
             }
@@ -414,7 +417,7 @@ pub fn seam_offers(v: &[Action], base: usize, i: u8, d: Direction) -> bool {
 // ===========================================================================
 // @obl props=C01,C02,C04,C07,C12,C13,C19 tier=quick kind=harness-contract mem=4 est=60
 // @fns GameState::extend_with_valid_curr_player_piece_moves GameState::curr_player_non_frozen_pieces can_move_in_direction GameState::invalid_rabbit_moves
-// @clause requires board_wf. ensures (seam abstracted, A1): the seam is called once per direction with a non-empty mask, in Up,Right,Down,Left order, one Move(REP,d) appended per call, nothing else; forall (i,d): bit(mask_d,i) <=> simple_step(pb,side,i,d) = unfrozen piece of the mover on i, nbr(i,d) empty, not a rabbit moving backward
+// @clause requires board_wf. ensures (seam abstracted, A1): one Move(REP,d) is appended per seam call with a non-empty mask, at most one call per direction, nothing else; forall (i,d): bit(mask_d,i) <=> simple_step(pb,side,i,d) = unfrozen piece of the mover on i, nbr(i,d) empty, not a rabbit moving backward
 #[kani::proof]
 #[kani::unwind(6)]
 #[kani::stub(crate::action::map_bit_board_to_squares, seam_rec)]
@@ -428,7 +431,7 @@ fn c01_gen_steps() {
     kani::cover!(simple_step(&pb, side, i, d));
     let mut v: Vec<Action> = Vec::new();
     gs.extend_with_valid_curr_player_piece_moves(&mut v, &pb);
-    assert!(seam_list_ok(&v, 0, rep), "C01: one Move(REP,d) per non-empty direction mask, directions ascending");
+    assert!(seam_list_ok(&v, 0, rep), "C01: one Move(REP,d) per non-empty direction mask handed to the seam, each direction at most once");
     assert!(seam_offers(&v, 0, i, d) == simple_step(&pb, side, i, d), "C01: offered single steps == legal single steps");
 }
 // @obl props=C01,C02,C04,C07,C12,C13,C19 tier=quick kind=harness-contract mem=5 est=90
@@ -453,7 +456,7 @@ fn c01_gen_push() {
     kani::cover!(matches!(st, PushPullState::MustCompletePush(_, _)));
     let mut v: Vec<Action> = Vec::new();
     gs.extend_with_push_piece_actions(&mut v, &pb);
-    assert!(seam_list_ok(&v, 0, rep), "C01: one Move(REP,d) per non-empty push mask, directions ascending");
+    assert!(seam_list_ok(&v, 0, rep), "C01: one Move(REP,d) per non-empty push mask handed to the seam, each direction at most once");
     let pending = matches!(st, PushPullState::MustCompletePush(_, _));
     assert!(seam_offers(&v, 0, i, d) == (!pending && push_start(&pb, side, step, i, d)), "C01: offered push starts == legal push starts");
 }
@@ -1350,9 +1353,9 @@ fn no_dups(a: &[Action]) -> bool {
 
 // @obl props=C01,C02,C06,C07,C12,C13,C19 tier=quick kind=harness-contract mem=8 est=200 timeout=1800
 // @fns GameState::valid_actions_ GameState::valid_actions_no_rep GameState::valid_actions
-// @clause assembly, fully modular: the four generators, can_pass and remove_passing_like_actions are replaced by abstractions of their contracts (0..1 symbolic action each, disjointness as proved; the filter abstraction appends a marker to the list it is given); check_repititions symbolic, all statuses: result == completions when a push is pending, else push starts ++ pull completions not already listed ++ own steps ++ [Pass iff can_pass(check_repititions)], in this order, followed by the filter marker exactly when check_repititions (filter invoked once, last, on the whole list); no action listed twice
+// @clause assembly, fully modular: the four generators, can_pass and remove_passing_like_actions are replaced by abstractions of their contracts (0..1 symbolic action each, disjointness as proved; the filter abstraction appends a marker to the list it is given); both flag values, all statuses: the list is, as a set, completions when a push is pending, else push starts + pull completions not already listed + own steps + [Pass iff can_pass(flag)], nothing twice; with repetition checking the filter is invoked exactly once, last, on the whole list, never without; apart from Pass both flag values give the same sequence
 #[kani::proof]
-#[kani::unwind(8)]
+#[kani::unwind(14)]
 #[kani::stub(GameState::extend_with_push_piece_actions, q_push)]
 #[kani::stub(GameState::extend_with_pull_piece_actions, q_pull_dedup)]
 #[kani::stub(GameState::extend_with_valid_curr_player_piece_moves, q_steps)]
@@ -1369,13 +1372,84 @@ fn c01_assembly() {
     kani::cover!(pending && check);
     kani::cover!(!pending && !check && unsafe { G_PULL.is_some() && G_PULL == G_PUSH }, "a pull completion that is also a push start");
     kani::cover!(!pending && unsafe { G_PUSH.is_some() && G_PULL.is_some() && G_STEP.is_some() && G_PUSH != G_PULL }, "all three generators contribute");
-    let got = gs.valid_actions_(check);
-    let mut want = expected_rule_list(pending, unsafe { if check { CP_REP } else { CP_RULES } });
-    assert!(no_dups(&want), "C01: no action is listed twice");
+    let mut got = gs.valid_actions_(check);
     if check {
-        want.push(FILTER_MARK); // the filter ran once, last, on the whole list
+        assert!(got.len() >= 1 && got[got.len() - 1] == FILTER_MARK, "C06: with repetition checking the filter runs last, on the whole list");
+        got.pop();
     }
-    assert!(lists_equal(&got, &want), "C01/C06: list == completions | push ++ pull(dedup) ++ steps ++ [Pass]; filter applied last, exactly when repetition checking is on");
+    assert!(count_in(&got, &FILTER_MARK) == 0, "C06: the filter runs exactly once with repetition checking and never without");
+    // content as a set: no property fixes the order of the categories
+    let want = expected_rule_list(pending, unsafe { if check { CP_REP } else { CP_RULES } });
+    assert!(no_dups(&want));
+    assert!(same_set(&got, &want) && no_dups(&got), "C01: list == completions | push starts + pull completions not already listed + own steps + [Pass iff can_pass(flag)], nothing twice");
+}
+// @obl props=C06,C19 tier=quick kind=harness-contract mem=10 est=120 timeout=1800
+// @fns GameState::valid_actions_
+// @clause same abstraction, no push pending, all three generators contributing (the only case in which an order exists to differ): valid_actions_(false) and the list valid_actions_(true) hands to the filter start with the same three actions in the same order (C06 "in the same order"); Pass, when present, is last by c01_assembly's marker argument
+#[kani::proof]
+#[kani::unwind(14)]
+#[kani::stub(GameState::extend_with_push_piece_actions, q_push)]
+#[kani::stub(GameState::extend_with_pull_piece_actions, q_pull_dedup)]
+#[kani::stub(GameState::extend_with_valid_curr_player_piece_moves, q_steps)]
+#[kani::stub(GameState::must_complete_push_actions, q_completion)]
+#[kani::stub(GameState::can_pass, abs_can_pass)]
+#[kani::stub(GameState::remove_passing_like_actions, q_filter)]
+fn c06_assembly_order() {
+    let pb = any_board_raw();
+    // order can only differ when several generators contribute: no push pending, all three generators produce an action
+    let gs = play_state_h(&pb, kani::any(), 1, PushPullState::None, kani::any(), kani::any(), kani::any(), 2);
+    g_reset();
+    unsafe {
+        kani::assume(G_PUSH.is_some() && G_PULL.is_some() && G_STEP.is_some() && G_PUSH != G_PULL);
+    }
+    kani::cover!(true);
+    let plain = gs.valid_actions_(false);
+    let with_rep = gs.valid_actions_(true);
+    assert!(plain.len() >= 3 && with_rep.len() >= 4, "three generator outputs (+ filter marker)");
+    assert!(plain[0] == with_rep[0] && plain[1] == with_rep[1] && plain[2] == with_rep[2], "C06: the rule-only list and the list handed to the filter are in the same order");
+}
+fn count_in(v: &[Action], a: &Action) -> usize {
+    let mut n = 0;
+    let mut k = 0;
+    while k < 6 {
+        if k < v.len() && v[k] == *a {
+            n += 1;
+        }
+        k += 1;
+    }
+    n
+}
+fn same_set(a: &[Action], b: &[Action]) -> bool {
+    if a.len() != b.len() || a.len() > 5 {
+        return false;
+    }
+    let mut ok = true;
+    let mut k = 0;
+    while k < 5 {
+        if k < a.len() {
+            ok = ok && count_in(b, &a[k]) == count_in(a, &a[k]);
+        }
+        k += 1;
+    }
+    ok
+}
+fn same_sequence_without_pass(a: &[Action], b: &[Action]) -> bool {
+    let (mut i, mut j) = (0, 0);
+    let mut ok = true;
+    let mut guard = 0;
+    while guard < 12 {
+        if i < a.len() && a[i] == Action::Pass {
+            i += 1;
+        } else if j < b.len() && b[j] == Action::Pass {
+            j += 1;
+        } else if i < a.len() && j < b.len() {
+            ok = ok && a[i] == b[j];
+            i += 1;
+            j += 1;
+        }
+        guard += 1;
+    }
+    ok && i == a.len() && j == b.len()
 }
 
 fn survives(active: bool, a: Option<Action>) -> bool {
